@@ -36,6 +36,14 @@ CHECKS = {
         text="12 read call shapes (defaults positional/keyword) x 6 stacks (Client, PooledClient, HashClient with 0/1/2 servers, pooled or not) x {no serde, raising deserializer} x {cold, after a warm-up call} x every fault plan with <=1 (quick) / <=2 (thorough) deviations; nothing may be raised, the result must equal the miss result of the very same call (for the keys whose server failed), and a probe set;get afterwards must succeed.",
         note=TB + "For a multi-server HashClient the keys of servers that did not fail are still expected in multi-key results (a reading of 'miss' per server); call shapes a class does not offer at all are left to C16.",
     ),
+    "C10": dict(
+        engine="E1-deviation-bounded-explorer",
+        level="fault_enumeration",
+        technique="exhaustive enumeration of interruption (crash) points: every socket call of every call x 3 BaseException types x before/after the call's effect, on the real clients, reply-ownership + pool-slot oracle",
+        design_ref="DESIGN.md section 3 / C10",
+        text="op1;op2[;op3] over the operation alphabet on Client, PooledClient (max 1, max 2, with idle expiry) and HashClient (plain, pooled); op1..opN are interrupted at every socket-level call (getaddrinfo, socket, setsockopt, settimeout, connect, sendall, recv, close) by KeyboardInterrupt / SystemExit / a BaseException subclass, alone and (reduced grid in quick, full in thorough) combined with one ordinary deviation; the interruption must propagate, later calls must satisfy the C01 oracle, and no pool slot may stay checked out.",
+        note=TB + "One interruption per history; the interruption is raised by the socket call itself (gevent-style), not between two bytecodes of library code.",
+    ),
 }
 
 PENDING = "check not built yet in this session; planned engine and oracle are in DESIGN.md section 3"
